@@ -357,6 +357,9 @@ class Own:
                 if it.optional_vars is not None:
                     self.store(it.optional_vars, v)
             self.block(st.body)
+        elif isinstance(st, (ast.FunctionDef, ast.AsyncFunctionDef)):
+            # a closure: analysed at each call in the state of the call (below); remembered by name
+            self.__dict__.setdefault("localfns", {})[st.name] = st
         elif isinstance(st, ast.Return):
             if st.value is not None:
                 self.retv = join(self.retv, self.expr(st.value))
@@ -546,6 +549,33 @@ class Own:
             if t in (P.NUM, P.BOOL) or self.eng.immutable_type(t):
                 return EMPTY
             return res
+        if isinstance(f, ast.Name) and f.id in self.__dict__.get("localfns", {}) and self.__dict__.get("_closure_depth", 0) < 3:
+            # a closure of this function: its body runs in the state of the call; what it returns (or yields) comes back
+            d = self.localfns[f.id]
+            a = d.args
+            if not (a.vararg or a.kwarg or a.kwonlyargs) and len(args) <= len(a.posonlyargs + a.args) \
+                    and not any(isinstance(x, ast.Starred) for x in e.args) and not kwargs:
+                saved_env, saved_ret = dict(self.env), self.retv
+                self._closure_depth = self.__dict__.get("_closure_depth", 0) + 1
+                try:
+                    for prm, val in zip(a.posonlyargs + a.args, args):
+                        self.env[prm.arg] = val
+                    self.retv = EMPTY
+                    self.block(d.body)
+                    got = self.retv
+                    for n in ast.walk(d):
+                        if isinstance(n, ast.Yield) and n.value is not None:
+                            got = join(got, box(self.expr(n.value)))
+                finally:
+                    self._closure_depth -= 1
+                    self.retv = saved_ret
+                    shadow = {prm.arg for prm in a.posonlyargs + a.args}
+                    merged = dict(saved_env)
+                    for k, v in self.env.items():
+                        if k not in shadow and k in saved_env:
+                            merged[k] = join(saved_env[k], v)
+                    self.env = merged
+                return got
         if isinstance(f, ast.Name):
             if f.id in PURE:
                 return EMPTY
